@@ -35,6 +35,7 @@ REQUIRED = [
     "round:core-judged", "round:shell-judged", "round:start-face", "round:end-face",
     "round:shape:Cylinder", "round:shape:Frustum", "round:shape:Elbow", "round:shape:SemiCylinder",
     "mesh:rotated", "mesh:exact-integer", "mesh:merged-pair-with-duplicated-vertices",
+    "round:second-call-after-mutating-the-result",
 ]
 RULE = (
     "reorient: cube x anisotropic scale (10^U(-0.4,0.4) per axis) x size 10^U(-1,1), corner jitter class none / tiny "
@@ -609,6 +610,19 @@ def run_round(ctx, case):
             ctx.count(f"round:{name}-judged")
             ctx.count("round:" + which)
             ctx.key(["round", case["shape"], extras, which, name, len(want)], nontrivial=True)
+            if got == want and isinstance(found, (set, list)):
+                # history: callers combine results in place (`inner = find_core(True); inner.update(find_core(False))`);
+                # what they do to a returned collection must not change what the finder returns next time
+                try:
+                    found.clear()
+                except AttributeError:
+                    pass
+                again = _indices(ctx, "round:" + name, getattr(finder, "find_" + name)(end_face), verts, call + " [2nd call]")
+                ctx.count("round:second-call-after-mutating-the-result")
+                if again is not None and again != want:
+                    ctx.violation(f"round:{name}:second-call-differs-after-caller-mutated-the-result",
+                                  f"{call}: first call {sorted(want)}, after result.clear() the same call returns {sorted(again)}")
+                    continue
             if got != want:
                 kind = "extra" if got - want and not want - got else "missing" if want - got and not got - want else "other-vertices"
                 ctx.violation(f"round:{name}:{kind}:{which}",
